@@ -1,0 +1,148 @@
+//go:build verif
+
+// Contracts for the govc verifier (comment-only file; compiled only with -tags verif, and then to nothing).
+
+package nodetable
+
+// Abstraction: keys are identified by kid(bytes); keyOf(p) is the key of the object behind a stored pointer;
+// hashOf is the (arbitrary, uninterpreted) hash function on key identities. The callbacks are assumed pure.
+
+//@ ufun keyOf(p ref) int
+//@ ufun kid(h [int]int, p ref, n int) int
+//@ ufun hashOf(k int) int
+//@ axiom hashOf-range: forall k int :: 0 <= hashOf(k) && hashOf(k) < 4294967296
+//@ pure keyId(key []byte) int = kid(memheap8(), ptr(key), len(key))
+//@ pure dec(v uint64) ref = v % 9223372036854775808
+//@ pure conf(v uint64) bool = v / 9223372036854775808 == 1
+
+//@ axiom emptyResult-zero: emptyResult.status == 0 && !emptyResult.hasConflict && !emptyResult.fastHTHasEntry && emptyResult.fastHTValue == 0 && emptyResult.slowHTPos == 0 && len(emptyResult.slowHTValues) == 0
+
+//@ callback-field NodeTable.keyEqual(fn ref, p ref, key []byte) eq bool
+//@ pure-call
+//@ ensures eq <==> keyOf(p) == kid(memheap8(), ptr(key), len(key))
+
+//@ callback-field NodeTable.hash(fn ref, key []byte) h uint32
+//@ pure-call
+//@ ensures h == hashOf(kid(memheap8(), ptr(key), len(key)))
+
+//@ func decodePointer
+//@ props C20
+//@ modifies none
+//@ ensures[def] result == v % 9223372036854775808
+
+//@ func encodePointer
+//@ props C20
+//@ requires p < 9223372036854775808
+//@ modifies none
+//@ ensures[roundtrip] dec(result) == p && (conf(result) <==> hasConflict)
+//@ ensures[def] result == p + ite(hasConflict, 9223372036854775808, 0)
+
+//@ func (*NodeTable).hasConflict
+//@ props C20
+//@ modifies none
+//@ ensures[def] result <==> conf(v)
+
+//@ func (*NodeTable).isEqual
+//@ props C20
+//@ requires nt != nil
+//@ modifies none
+//@ ensures[def] result <==> keyOf(dec(v)) == keyId(key)
+
+// find: the result record describes exactly where the key lives.
+//@ pure fastHas(nt *NodeTable, h int) bool = has(nt.fastHT, h)
+//@ pure inFast(nt *NodeTable, k int) bool = has(nt.fastHT, hashOf(k)) && keyOf(dec(nt.fastHT[hashOf(k)])) == k
+//@ pure slowLive(nt *NodeTable, k int) bool = has(nt.fastHT, hashOf(k)) && conf(nt.fastHT[hashOf(k)]) && has(nt.slowHT, hashOf(k))
+//@ pure inSlowAt(nt *NodeTable, k int, i int) bool = slowLive(nt, k) && 0 <= i && i < len(nt.slowHT[hashOf(k)]) && keyOf(dec(nt.slowHT[hashOf(k)][i])) == k
+
+//@ func (*NodeTable).find
+//@ props C20
+//@ use emptyResult-zero
+//@ requires nt != nil && nt.fastHT != nil && nt.slowHT != nil
+//@ modifies nt.res.status, nt.res.hash, nt.res.hasConflict, nt.res.fastHTHasEntry, nt.res.fastHTValue, nt.res.slowHTValues, nt.res.slowHTPos
+//@ loop 1 invariant -1 <= rangeindex && rangeindex < len(vs) && (forall j int :: 0 <= j && j <= rangeindex ==> keyOf(dec(vs[j])) != keyId(key))
+//@ loop 1 invariant nt.res.status == 0 && nt.res.hash == hashOf(keyId(key)) && nt.res.hasConflict && nt.res.fastHTHasEntry && !inFast(nt, keyId(key))
+//@ loop 1 decreases len(vs) - rangeindex
+//@ ensures[res] result == nt.res
+//@ ensures[hash] result.hash == hashOf(keyId(key))
+//@ ensures[status] result.status == 0 || result.status == 1 || result.status == 3
+//@ ensures[has-entry] result.fastHTHasEntry <==> has(nt.fastHT, hashOf(keyId(key)))
+//@ ensures[conflict] result.hasConflict <==> (has(nt.fastHT, hashOf(keyId(key))) && conf(nt.fastHT[hashOf(keyId(key))]))
+//@ ensures[fast] result.status == 1 <==> inFast(nt, keyId(key))
+//@ ensures[fast-value] result.status == 1 ==> result.fastHTValue == nt.fastHT[hashOf(keyId(key))]
+//@ ensures[slow] result.status == 3 ==> !inFast(nt, keyId(key)) && inSlowAt(nt, keyId(key), result.slowHTPos) && result.slowHTValues == nt.slowHT[hashOf(keyId(key))]
+//@ ensures[slow-first] result.status == 3 ==> (forall j int :: 0 <= j && j < result.slowHTPos ==> !inSlowAt(nt, keyId(key), j))
+//@ ensures[absent] result.status == 0 ==> !inFast(nt, keyId(key)) && (forall j int :: !inSlowAt(nt, keyId(key), j))
+//@ nopanic
+
+//@ pure present(nt *NodeTable, k int) bool = inFast(nt, k) || (exists i int :: inSlowAt(nt, k, i))
+//@ pure slowPtrAt(nt *NodeTable, k int, i int) ref = dec(nt.slowHT[hashOf(k)][i])
+
+// Representation invariant (the parts the functional contracts need).
+//@ pure wfConf(nt *NodeTable) bool = forall h uint32 :: has(nt.slowHT, h) <==> (has(nt.fastHT, h) && conf(nt.fastHT[h]))
+//@ pure wfNonEmpty(nt *NodeTable) bool = forall h uint32 :: has(nt.slowHT, h) ==> len(nt.slowHT[h]) >= 1 && ptr(nt.slowHT[h]) > 0
+//@ pure wfBelowBrk(nt *NodeTable) bool = forall h uint32 :: has(nt.slowHT, h) ==> ptr(nt.slowHT[h]) + 8 * cap(nt.slowHT[h]) <= brk()
+//@ pure wfDisjoint(nt *NodeTable) bool = forall h1, h2 uint32 :: h1 != h2 && has(nt.slowHT, h1) && has(nt.slowHT, h2) ==>
+//@     (ptr(nt.slowHT[h1]) + 8 * cap(nt.slowHT[h1]) <= ptr(nt.slowHT[h2]) || ptr(nt.slowHT[h2]) + 8 * cap(nt.slowHT[h2]) <= ptr(nt.slowHT[h1]))
+//@ pure wfDistinct(nt *NodeTable) bool = forall h uint32, i, j int :: has(nt.slowHT, h) && 0 <= i && i < len(nt.slowHT[h]) ==>
+//@     keyOf(dec(nt.slowHT[h][i])) != keyOf(dec(nt.fastHT[h])) && (0 <= j && j < i ==> keyOf(dec(nt.slowHT[h][j])) != keyOf(dec(nt.slowHT[h][i])))
+//@ pure wf(nt *NodeTable) bool = nt != nil && nt.fastHT != nil && nt.slowHT != nil && nt.fastHT != nt.slowHT && wfConf(nt) && wfNonEmpty(nt) && wfBelowBrk(nt) && wfDisjoint(nt) && wfDistinct(nt)
+
+//@ func (*NodeTable).Get
+//@ props C20
+//@ requires wf(nt)
+//@ modifies nt.res.status, nt.res.hash, nt.res.hasConflict, nt.res.fastHTHasEntry, nt.res.fastHTValue, nt.res.slowHTValues, nt.res.slowHTPos
+//@ ensures[absent] !present(nt, keyId(key)) ==> result == nil
+//@ ensures[fast] inFast(nt, keyId(key)) ==> result == dec(nt.fastHT[hashOf(keyId(key))])
+//@ ensures[slow] !inFast(nt, keyId(key)) && present(nt, keyId(key)) ==> (exists i int :: inSlowAt(nt, keyId(key), i) && result == slowPtrAt(nt, keyId(key), i))
+//@ nopanic
+
+//@ func (*NodeTable).ItemsCount
+//@ props C20
+//@ requires nt != nil
+//@ modifies none
+//@ ensures[def] result == nt.fastHTCount + nt.slowHTCount || nt.fastHTCount + nt.slowHTCount >= 9223372036854775808
+
+//@ func (*NodeTable).Update
+//@ props C20
+//@ use emptyResult-zero hashOf-range
+//@ requires wf(nt) && nptr != nil && nptr < 9223372036854775808 && keyOf(nptr) == keyId(key)
+//@ requires nt.fastHTCount < 4294967296 && nt.slowHTCount < 4294967296 && nt.conflicts < 4294967296
+//@ modifies nt.res.status, nt.res.hash, nt.res.hasConflict, nt.res.fastHTHasEntry, nt.res.fastHTValue, nt.res.slowHTValues, nt.res.slowHTPos
+//@ modifies mapof(nt.fastHT), mapof(nt.slowHT), mem(uint64), nt.fastHTCount, nt.slowHTCount, nt.conflicts, heap($alive), heap($brk)
+//@ ensures[updated] updated <==> old(present(nt, keyId(key)))
+//@ ensures[old-fast] old(inFast(nt, keyId(key))) ==> oldPtr == old(dec(nt.fastHT[hashOf(keyId(key))]))
+//@ ensures[old-slow] !old(inFast(nt, keyId(key))) && old(present(nt, keyId(key))) ==> old(exists i int :: inSlowAt(nt, keyId(key), i) && slowPtrAt(nt, keyId(key), i) == oldPtr)
+//@ ensures[old-absent] !old(present(nt, keyId(key))) ==> oldPtr == nil
+//@ ensures[new] (inFast(nt, keyId(key)) && dec(nt.fastHT[hashOf(keyId(key))]) == nptr) || (exists i int :: inSlowAt(nt, keyId(key), i) && slowPtrAt(nt, keyId(key), i) == nptr)
+//@ ensures[others-fast] forall k2 int :: k2 != keyId(key) ==> (inFast(nt, k2) <==> old(inFast(nt, k2))) && (inFast(nt, k2) ==> dec(nt.fastHT[hashOf(k2)]) == old(dec(nt.fastHT[hashOf(k2)])))
+//@ ensures[others-slow] forall k2 int, i int :: k2 != keyId(key) ==> (inSlowAt(nt, k2, i) <==> old(inSlowAt(nt, k2, i))) && (inSlowAt(nt, k2, i) ==> slowPtrAt(nt, k2, i) == old(slowPtrAt(nt, k2, i)))
+//@ ensures[count] nt.fastHTCount + nt.slowHTCount == old(nt.fastHTCount + nt.slowHTCount) + ite(updated, 0, 1)
+//@ ensures[wf-conf] wfConf(nt)
+//@ ensures[wf-nonempty] wfNonEmpty(nt)
+//@ ensures[wf-belowbrk] wfBelowBrk(nt)
+//@ ensures[wf-disjoint] wfDisjoint(nt)
+//@ ensures[wf-distinct] wfDistinct(nt)
+//@ nopanic
+
+//@ func (*NodeTable).Remove
+//@ props C20
+//@ use emptyResult-zero hashOf-range
+//@ requires wf(nt)
+//@ requires nt.fastHTCount < 4294967296 && nt.slowHTCount < 4294967296 && nt.conflicts < 4294967296
+//@ requires[counts] (forall h uint32 :: has(nt.fastHT, h) ==> nt.fastHTCount >= 1) && (forall h uint32 :: has(nt.slowHT, h) ==> nt.slowHTCount >= 1 && nt.conflicts >= 1)
+//@ modifies nt.res.status, nt.res.hash, nt.res.hasConflict, nt.res.fastHTHasEntry, nt.res.fastHTValue, nt.res.slowHTValues, nt.res.slowHTPos
+//@ modifies mapof(nt.fastHT), mapof(nt.slowHT), mem(uint64), nt.fastHTCount, nt.slowHTCount, nt.conflicts, heap($alive), heap($brk)
+//@ ensures[success] success <==> old(present(nt, keyId(key)))
+//@ ensures[ptr-fast] old(inFast(nt, keyId(key))) ==> nptr == old(dec(nt.fastHT[hashOf(keyId(key))]))
+//@ ensures[ptr-slow] !old(inFast(nt, keyId(key))) && old(present(nt, keyId(key))) ==> old(exists i int :: inSlowAt(nt, keyId(key), i) && slowPtrAt(nt, keyId(key), i) == nptr)
+//@ ensures[ptr-absent] !old(present(nt, keyId(key))) ==> nptr == nil
+//@ ensures[removed] !present(nt, keyId(key))
+//@ ensures[others] forall k2 int :: k2 != keyId(key) ==> (present(nt, k2) <==> old(present(nt, k2)))
+//@ ensures[others-fast-stay] forall k2 int :: k2 != keyId(key) && old(inFast(nt, k2)) ==> inFast(nt, k2) && dec(nt.fastHT[hashOf(k2)]) == old(dec(nt.fastHT[hashOf(k2)]))
+//@ ensures[count] nt.fastHTCount + nt.slowHTCount == old(nt.fastHTCount + nt.slowHTCount) - ite(success, 1, 0)
+//@ ensures[wf-conf] wfConf(nt)
+//@ ensures[wf-nonempty] wfNonEmpty(nt)
+//@ ensures[wf-belowbrk] wfBelowBrk(nt)
+//@ ensures[wf-disjoint] wfDisjoint(nt)
+//@ ensures[wf-distinct] wfDistinct(nt)
+//@ nopanic
